@@ -13,16 +13,26 @@ Starts == { <<1999, 365, 22>>, <<2000, 59, 23>>, <<1970, 1, 0>>, <<2069, 364, 21
 Grids == { <<1, 1, 1>>, <<2, 1, 1>>, <<1, 2, 2>>, <<2, 2, 1>>, <<3, 2, 2>>, <<2, 3, 1>> }
 Quick == IOEnv.PNC_CAMX_SCALE = "quick"
 ConfigsAll ==
-  { [fmt |-> "uamiv", name |-> nm, note |-> <<"v","e","r","i","f">>, itzon |-> 0, spc |-> sp,
+  { [fmt |-> "uamiv", name |-> nm, note |-> nt2, itzon |-> 0, spc |-> sp,
      nx |-> g[1], ny |-> g[2], nz |-> g[3], nt |-> nt, year |-> st[1], jjj |-> st[2], hour |-> st[3],
      plon |-> -97, plat |-> 40, iutm |-> 0, xorg |-> -2736, yorg |-> -2088, delx |-> 36, dely |-> 24,
      iproj |-> 2, istag |-> 0, tlat1 |-> 33, tlat2 |-> 45, h24 |-> h] :
       nm \in { <<"A","V","E","R","A","G","E">>, <<"E","M","I","S","S","I","O","N","S">> },
-      sp \in NameSets, g \in Grids, nt \in 1..3, st \in Starts, h \in BOOLEAN }
+      sp \in NameSets, g \in Grids, nt \in 1..3, st \in Starts, h \in BOOLEAN,
+      \* the note: left-justified, or beginning with blanks (a centred title)
+      nt2 \in { <<"v","e","r","i","f">>, <<" "," ","m","i","d"," ","x">> } }
+\* legacy two-dimensional EMISSIONS files: one layer of data, 0 layers in the header
+LegacyConfigs ==
+  { [fmt |-> "uamiv", name |-> <<"E","M","I","S","S","I","O","N","S">>, note |-> <<"v","e","r","i","f">>, itzon |-> 0, spc |-> sp,
+     nx |-> g[1], ny |-> g[2], nz |-> 1, nt |-> nt, year |-> 2011, jjj |-> 182, hour |-> 5,
+     plon |-> -97, plat |-> 40, iutm |-> 0, xorg |-> -2736, yorg |-> -2088, delx |-> 36, dely |-> 24,
+     iproj |-> 2, istag |-> 0, tlat1 |-> 33, tlat2 |-> 45, h24 |-> FALSE, nz0 |-> TRUE] :
+      sp \in NameSets, g \in { <<2, 1>>, <<2, 2>> }, nt \in 1..3 }
 \* the quick tier keeps the shapes that matter most: 1-3 steps, every start, small grids
 Configs == IF Quick THEN {x \in ConfigsAll : x.nx * x.ny * x.nz <= 4 /\ Len(x.spc) <= 2
                                             /\ (x.name[1] = "A" \/ (Len(x.spc) = 1 /\ x.jjj = 1))
-                                            /\ (x.h24 <=> x.nt = 2)}
+                                            /\ (x.h24 <=> x.nt = 2)
+                                            /\ ((x.note[1] = " ") <=> x.nt = 1)}
            ELSE ConfigsAll
 
 \* meteorological formats: one configuration record per format/grid/steps/start
@@ -83,7 +93,7 @@ BigConfigs ==
 Big == IOEnv.PNC_CAMX_FAMILY = "big"
 AllConfigs == CASE IOEnv.PNC_CAMX_FAMILY = "met" -> MetConfigs
                 [] Big -> BigConfigs
-                [] OTHER -> {x \in Configs : TimesExpressible(x)}
+                [] OTHER -> {x \in Configs : TimesExpressible(x)} \cup LegacyConfigs
 
 \* c: the configuration, n: the cut offset, z: the sizes of c's layout (computed
 \* once from the grammar, so that the per-offset invariants are arithmetic)
